@@ -365,6 +365,13 @@ def _gates(tier):
     yield dict(name="keysafe.identifier", kind="text", value="vmware:key", others=[], open_text=lambda s: _open_keysafe(ident=s))
     yield dict(name="keysafe.locator_kind", kind="text", value="phrase", others=[], open_text=lambda s: _open_keysafe(kind=s),
                extra_values=["rawkey", "ldap", "script", "role", "fqid"])
+    # the same kinds judged where the key safe is opened (KeySafe.from_text), alone and next to a valid phrase pair in both orders
+    yield dict(name="keysafe.locator_kind.from_text", kind="text", value="phrase", others=[],
+               open_text=lambda s: _open_keysafe(kind=s, unlock=False), extra_values=["rawkey", "ldap", "script", "role", "fqid"])
+    for where in ("before", "after"):
+        yield dict(name=f"keysafe.locator_kind.{where}_valid_pair", kind="text", value="phrase", others=[],
+                   open_text=lambda s, where=where: _open_keysafe(kind=s, beside=where),
+                   extra_values=["rawkey", "ldap", "script", "role", "fqid"])
     # a list whose members are not pairs (a bare phrase locator): nothing in it can be unsealed
     yield dict(name="keysafe.list_of_non_pairs", kind="single", seed_ok=lambda: _open_keysafe(),
                fault=lambda: _open_keysafe(bare=True, unlock=False))
@@ -516,7 +523,7 @@ def _open_keystore(mode, missing=False):
 
 
 def _open_keysafe(ident="vmware:key", kind="phrase", mac="HMAC-SHA-1", cipher="AES-256", kdf="PBKDF2-HMAC-SHA-1", bare=False,
-                  unlock=True):
+                  unlock=True, beside=None):
     from dissect.hypervisor.descriptor.vmx import VMX
 
     from mc.builders import vmxenc as BV
@@ -543,7 +550,11 @@ def _open_keysafe(ident="vmware:key", kind="phrase", mac="HMAC-SHA-1", cipher="A
         inner = pair[len("pair/("):]
         pair = inner[:inner.index(",")]
         assert pair.startswith("phrase/"), pair
-    text = BV.vmx_text([pair], data).replace("vmware:key/list", ident + "/list")
+    pairs = [pair]
+    if beside:
+        good, _ = BV.pair_text("pw", vkdf, vcipher, 1, salt, vmac, vcipher, dk, BV.det_bytes("iv", 16))
+        pairs = [pair, good] if beside == "before" else [good, pair]
+    text = BV.vmx_text(pairs, data).replace("vmware:key/list", ident + "/list")
     if not unlock:
         from dissect.hypervisor.descriptor.vmx import KeySafe
 
